@@ -60,4 +60,13 @@ TEXTS["C06"] = {"engine": "attack", "design_ref": "§4 C06", "technique": "fault
     "level_text": "exploration: request on the wire equals the target (method, URL, body, header keys in original case, Host, sequence and attack headers, chunked), result equals the final response (code, headers, first max-body bytes, byte counts, error text iff status outside [200,400)), failed exchanges always carry an error and no success status, the final body is read to its end and closed in every case",
     "level_note": _ATK_NOTE}
 
+TEXTS.update({
+    "C14": {"engine": "stream", "design_ref": "§4 C14", "technique": "grammar-generated target files delivered through a simulated chunking reader; deep-copy-and-recompare oracle for independence of returned targets and defaults",
+            "level_text": "exploration: the targeter returns exactly the described targets in order then ErrNoTargets on every call; defaults merged as documented; no returned target nor the defaults (including spare slice capacity) change while later targets are decoded; JSON encoder -> targeter round trip. Two genuine defects found and repaired (see known_findings.json)",
+            "level_note": _STREAM_NOTE},
+    "C16": {"engine": "stream", "design_ref": "§4 C16", "technique": "storage-fault injection (lost/duplicated/reordered/spliced writes, bit flips, truncation) on valid documents read back through adversarial chunking; bounded-work oracle in Read calls and bytes allocated",
+            "level_text": "exploration: no parser panics, spins or keeps succeeding without consuming input; work bounded in Read calls and allocation, not in wall time (a 45 s wall guard exists only to turn a true hang into a report)",
+            "level_note": _STREAM_NOTE},
+})
+
 NOT_APPLICABLE = {}
